@@ -24,6 +24,8 @@
 //! * `C13.hang`              HANG (watchdog or self-deadlock on the global lock)
 //! * `C14.lost_wakeup`       an agent is blocked although its key's mutex is free
 //! * `C03.stream_stall`      a stream returned `Pending` although a key of its snapshot is unlocked and valued
+//! * `C05.spurious_try_fail` the `try_lock` of a try variant failed although the key's mutex was free (neither
+//!                           held nor handed to a waiter) in the state the try ran in
 
 use crate::exec::{AgentKind, Segment};
 use crate::sched::Event;
@@ -94,6 +96,11 @@ pub struct Monitors {
     idx: usize,
     uses: BTreeMap<Key, Uses>,
     lock_start: BTreeMap<Aid, (Key, usize)>,
+    /// C05.spurious_try_fail: try-variant agents that were parked right before their `try_lock` of the key
+    /// mutex after the previous segment (their next segment is that try), and whether the snapshot taken
+    /// after the previous segment describes the state that try runs in.
+    at_key_try: BTreeSet<Aid>,
+    prev_snap_exact: bool,
 }
 
 impl Monitors {
@@ -110,6 +117,8 @@ impl Monitors {
             idx: 0,
             uses: BTreeMap::new(),
             lock_start: BTreeMap::new(),
+            at_key_try: BTreeSet::new(),
+            prev_snap_exact: false,
         }
     }
 
@@ -202,6 +211,14 @@ impl Monitors {
         if !seg.mid_cs && (seg.snap.poisoned || seg.snap.glock_held) {
             self.lib_failed = true;
         }
+        self.at_key_try = seg
+            .agents
+            .iter()
+            .filter(|v| v.alive && v.at_key_try)
+            .filter(|v| matches!(&v.kind, AgentKind::Lock { sh, .. } if sh.is_try()))
+            .map(|v| v.aid)
+            .collect();
+        self.prev_snap_exact = !seg.mid_cs && !seg.snap.gone && !seg.snap.glock_held && !seg.snap.poisoned;
         if self.lib_failed {
             self.hits.retain(|h| h.id.starts_with("C13."));
         }
@@ -248,6 +265,23 @@ impl Monitors {
                 self.agent_obs(seg, *a, label, obs);
             }
             Label::Resume(a, _) => {
+                // C05/C14: a try variant whose `try_lock` of the key mutex ran in this segment and failed
+                // (the call goes on to its clean-up) although the mutex was free when the segment began
+                if self.at_key_try.contains(a) && self.prev_snap_exact && *obs == Obs::Nothing && !seg.pre.glock_held {
+                    if let Some(Call::Lock { key, .. }) = self.agents.get(a).and_then(|x| x.call) {
+                        if let Some(e) = seg.pre.get(key) {
+                            if !e.locked {
+                                self.hit(
+                                    "C05.spurious_try_fail",
+                                    format!(
+                                        "{}: the try_lock of key {} failed although its mutex was free (nobody held it, nobody had been handed it; {} handles)",
+                                        label.text(), key, e.replicas
+                                    ),
+                                );
+                            }
+                        }
+                    }
+                }
                 // C07: the enter step of a soft-limited call that does not invoke the callback
                 let enter = self.agents.get(a).map(|x| x.expect_enter && x.dropq.is_empty()).unwrap_or(false);
                 if enter && !obs.is_failure() {
